@@ -148,7 +148,7 @@ def main(tier, seed):
     insts = lib.load_corpus(PID) + [instgen.gen_instance(rng) for _ in range(n)]
     results = lib.pmap(run_case, [(d, k, inst) for k, inst in enumerate(insts)])
     return lib.conclude_diff(PID, tier, seed, t0, proof, results, check_impl, features,
-                             strip_model_prefixes=("wf ", "maxvehicles ", "ovf ", "netok "),
-                             model_flags={"wf true": True, "ovf true": True, "netok true": True},
+                             strip_model_prefixes=("wf ", "maxvehicles ", "ovf ", "netok ", "valid "),
+                             model_flags={"wf true": True, "ovf true": True, "netok true": True, "valid true": True},
                              what="Network getters after load (nodes, depots, can_reach matrix, successors, "
                                   "predecessors, required vehicles, limits, depot orderings, timing getters)")
